@@ -17,7 +17,7 @@ def value_parser(arg):
         return arg
 
     if arg.endswith('Meg'):
-        arg = arg[0:-2] + 'M'
+        arg = arg[0:-3] + 'M'
     elif arg.endswith('K'):
         arg = arg[0:-1] + 'k'
 
